@@ -168,3 +168,24 @@ def const_eval(term):
         if op == "Shl":
             return a << b
     return None
+
+
+def arg_pred(body, idx):
+    """predicate on term nodes: 'is the idx-th parameter (1-based) of the function `body` belongs to'.
+    In an async fn's coroutine body (and async_trait closures) parameters are captured upvars, in parameter order."""
+    name = None
+    if body.is_closure:
+        caps = body.captures
+        if idx - 1 < len(caps):
+            name = caps[idx - 1]
+        return lambda t: isinstance(t, tuple) and t and ((t[0] == "upvar" and t[1] == name) or (t[0] in ("local",) and t[2] == name))
+    return lambda t: isinstance(t, tuple) and t and t[0] == "param" and t[1] == idx
+
+
+def mentions_arg(body, term, idx):
+    return mentions(term, arg_pred(body, idx))
+
+
+def is_arg(body, term, idx):
+    t = peel(term)
+    return arg_pred(body, idx)(t)
